@@ -216,6 +216,18 @@ def g_run_at_end(rng):
         return pre + ["a:%d:%d" % (ord(k), m)] + run + follow + more
     return pre + run          # the run ends the list
 
+def g_range_after_array(rng):
+    """D32 (fixed): an array that holds a run and ends in a value x, followed by a unit-step run
+    that starts at x (the printer elides the run's second value; the checker used to find the
+    ellipsis inside the array)"""
+    k = rng.choice("ih")
+    a = rng.randint(-40, 40); m = rng.randint(5, 7)
+    x = a + m + rng.randint(2, 9)
+    d = rng.choice([1, -1])
+    arr = ["%s:%d" % (k, a + j) for j in range(m)] + ["%s:%d" % (k, x)]
+    run = ["%s:%d" % (k, x + d * j) for j in range(rng.randint(5, 7))]
+    return ["a:%d:%d" % (ord(k), len(arr))] + arr + run
+
 def gen_struct(rng, tier, dist, n):
     """lists with runs around the compression threshold, arrays, time tags, whole messages"""
     out = []
@@ -230,6 +242,8 @@ def gen_struct(rng, tier, dist, n):
         parts = rng.choice([1, 1, 2, 3, 4])
         if rng.random() < 0.12:
             vals = g_run_at_end(rng); parts = 0; compress = 1; bump("run-at-end")
+        elif rng.random() < 0.01:
+            vals = g_range_after_array(rng); parts = 0; compress = 1; bump("run-after-array-with-run")
         for _p in range(parts):
             q = rng.random()
             if q < 0.35:
@@ -411,16 +425,18 @@ TECHNIQUE = ("Coq proofs about a token-level model of the printer, the syntax ch
              "(structural induction over the value list, per-token lemmas) + differential "
              "correspondence against the real functions under ASan/UBSan")
 LEVEL_TEXT = ("Partial. Model: printer (all scalar types, range conversion with threshold 5, N x value and a b ... c "
-              "forms, arrays, messages), checker and scanner (incl. ellipsis handling, arrays, messages); time tags are not "
-              "modelled. Proved for all option records with compression off and unbounded lists of int32, int64, chars, "
-              "true/false/nil/inf, strings and quoted symbols: length, checker count, whole text consumed, values "
-              "(C10_roundtrip_partial, C10_print_total, C10_linebreak_transparent, C10_message_partial); the range conversion "
-              "expands to the values it replaces (C10_range_expand: step runs of i/h/c with wrap-around, constant runs of "
-              "every non-float scalar); both recognisers read NxV repetitions back (C10_repetition_reads_partial). The "
-              "model/implementation stream runs with compression on, arrays and messages. Stage 3: C10_roundtrip_any_partial - the "
-              "list-level round trip for EVERY option record (compression on or off) for int/char/keyword/string lists "
-              "(goodc), results compared by expansion. Stage 5: C10_array_roundtrip_partial - the same for a list that is one array "
-              "of goodc values of one type, with runs inside it compressed and line breaks between elements (the array loops of "
-              "printer, checker and scanner; element count and array type of the scanned header).")
-LEVEL_NOTE = ("Trusted: Coq kernel, extraction, OCaml driver (incl. its libc oracle for decimal float literals), harness, "
-              "generators. FloatFmt.v (printf %f/%a, hex literal value) is concrete but unproved. See notes/C10.md.")
+              "forms, arrays incl. nested ones, messages), checker and scanner (incl. ellipsis handling, arrays, messages); "
+              "time tags are not modelled. Proved (Properties_C10.v, 25 theorems): for EVERY option record (compression on or "
+              "off) and unbounded lists of int32/int64 over the full range, chars, true/false/nil/inf, strings and quoted "
+              "symbols, colours, MIDI, symbols printed bare, blobs, and - with the lossless option - every finite float and "
+              "double: returned length, checker count = slots written, whole text consumed, slots expand to the input "
+              "(C10_roundtrip_any_partial, C10_message_any_partial; the same for a list that is one array: "
+              "C10_array_roundtrip_partial). Side conditions = the classifier's predicates: +0.0 and -0.0 of one type do not "
+              "both occur (nozmix, signed-zero-run), no '.' in strings/symbols/chars (coarser than ellipsis-in-string-before-range). "
+              "The hexadecimal float text round-trips bit-exactly for every finite float/double (C10_hexfloat_roundtrip, "
+              "C10_float_tokens; no oracle). Arrays among other values: recogniser half only (C10_mixed_reads_partial, side "
+              "condition = no range tail directly after an array = class range-after-array). Range conversion: C10_range_expand "
+              "(step runs of i/h/c, constant runs of every scalar incl. floats).")
+LEVEL_NOTE = ("Trusted: Coq kernel, extraction, OCaml driver (incl. its libc oracle for decimal float literals, dead in lossless "
+              "mode), harness, generators. FloatFmt.v: fmt_f/fmt_a = glibc printf and sc_f/to_bits = glibc sscanf are tied by "
+              "the correspondence run, not proved; given them the float round trip is a theorem. See notes/C10.md (stage 6).")
